@@ -12,6 +12,9 @@ the import of the axiom audit, harness/c13.py THEOREMS):
                           (`int()` vs `np.round`), the shifted write-back otherwise, the repaired placement
   Lemmas/C13Sampler.lean  order-1 = bilinear, reproduces samples; 'constant' fills; 'nearest' = clamp
   Lemmas/C13Seq.lean      a history of crops: exactness and landmark registration by induction over the sequence
+  Lemmas/C13Src.lean      the mirrors of the TRANSLATED source (Core/C13Src.lean) equal the Core definitions above:
+                          crop, the crop_to_* wrappers, _centered_patch, both extraction paths (the nested loops
+                          of the slicing path by a loop invariant), set_patches
   Lemmas/C13Api.lean      crop_to_pointcloud / landmarks / proportion / true_mask (the last row / column),
                           extract_patches dispatch and shape for every order and mode, list format,
                           round trip through the public defaults
@@ -21,4 +24,5 @@ import MenpoModel.Lemmas.C13Set
 import MenpoModel.Lemmas.C13Sampler
 import MenpoModel.Lemmas.C13Api
 import MenpoModel.Lemmas.C13Seq
+import MenpoModel.Lemmas.C13Src
 import MenpoModel.Core.C13Entry
